@@ -102,14 +102,15 @@ def addBody (s : Svc) (p cid : String) (v : PodGet) (pick : List Ent) : Svc × R
     else (s, .err)                             -- the model rejects what was observed
   | _ => (s, .err)
 
-/-- an ADD that fails after the pool served it (cancelled request): `back` says whether the addresses
-    were handed back (`commit` on a done context / the rollback release) or stayed bound -/
+/-- an ADD that fails after the pool served it (cancelled request): `back` says whether the addresses this
+    request bound were handed back (`commit` on a done context / the rollback release) or stayed bound.
+    An address the pod already held before the request stays the pod's either way. -/
 def addFailBody (s : Svc) (p : String) (pick : List Ent) (back : Bool) : Svc × Reply :=
   if pick = [] then (s, .err)
   else if pickOK s p pick then
     let eni := (pick.head?.map (·.eni)).getD ""
-    let ips := pick.map (·.ip)
-    ({ s with pool := if back then release s.pool p eni ips else claim s.pool p eni ips }, .err)
+    let fresh := (pick.filter (·.owner = none)).map (·.ip)
+    ({ s with pool := if back then release s.pool p eni fresh else claim s.pool p eni (pick.map (·.ip)) }, .err)
   else (s, .err)
 
 /-- DEL body -/
